@@ -210,7 +210,11 @@ class SdkRun:
                         holder["body"] = self.run_body(s["body"])
                     finally:
                         self.loopvars.pop()
-                self.conn.loop_body(lb, stop=s["stop"], start=s["start"], step=s["step"])
+                if s.get("reg"):
+                    # the application names the counter register itself (documented parameter of loop_body)
+                    self.conn.loop_body(lb, stop=s["stop"], start=s["start"], step=s["step"], loop_register=s["reg"])
+                else:
+                    self.conn.loop_body(lb, stop=s["stop"], start=s["start"], step=s["step"])
             return [{"s": "loop", "start": s["start"], "stop": s["stop"], "step": s["step"], "body": holder["body"]}]
         if k == "foreach":
             arr = self.arrays[s["a"]]
